@@ -47,10 +47,11 @@ class Unit:
 
 
 def _parse_rewrite(line, path):
-    m = re.match(r'\s*(?:\[(\w+)\]\s*)?"(.*?)"\s*=>\s*"(.*)"\s*$', line)
+    m = re.match(r'\s*(?:\[(\w+)\]\s*)?"(.*?)"\s*(?:#(\d+)\s*)?=>\s*"(.*)"\s*$', line)
     if not m:
         raise UnitError("%s: bad rewrite line: %s" % (path, line))
-    return (m.group(2), m.group(3), m.group(1) or "R-local")
+    # optional `#n`: only the n-th occurrence (1-based, source order) is rewritten
+    return (m.group(2), m.group(4), m.group(1) or "R-local", int(m.group(3)) if m.group(3) else None)
 
 
 def parse_units(path):
